@@ -31,9 +31,9 @@ def sync_matcher(prog, i, b, t, c):
             out.append("acq_sc")
     elif key == "rt::yield_now":
         out.append("yield_now")
-    elif key.startswith("std::collections::VecDeque") and key.endswith("::push_back"):
+    elif is_std_collection_call(key, "push_back"):
         out.append("push_back")
-    elif key.startswith("std::collections::VecDeque") and key.endswith("::pop_front"):
+    elif is_std_collection_call(key, "pop_front"):
         out.append("pop_front")
     elif key == "rt::lazy_static::Set::init_static":
         out.append("init_static")
@@ -96,8 +96,8 @@ def Y1(ctx, rows=None):
             ("rt::mutex::Mutex::post_acquire", "acq", "acquire load (>= Acquire)", dict(before_ret=true_ret)),
         ],
         "rwlock": [
-            ("rt::rwlock::RwLock::release_read_lock", "rel", "release store (>= Release)", {}),
-            ("rt::rwlock::RwLock::release_write_lock", "rel", "release store (>= Release)", {}),
+            ("rt::rwlock::RwLock::release_read_lock", "rel", "release store (>= Release)", dict(assume=assume_calls({"rt::thread::Set::is_active": True}))),
+            ("rt::rwlock::RwLock::release_write_lock", "rel", "release store (>= Release)", dict(assume=assume_calls({"rt::thread::Set::is_active": True}))),
             ("rt::rwlock::RwLock::post_acquire_read_lock", "acq", "acquire load (>= Acquire)", dict(before_ret=true_ret)),
             ("rt::rwlock::RwLock::post_acquire_write_lock", "acq", "acquire load (>= Acquire)", dict(before_ret=true_ret)),
         ],
@@ -523,7 +523,7 @@ def O4(ctx):
         else:
             ctx.bad("O4", fk, "is_seen_by_current used outside coherence / candidate selection",
                     site_str(prog, s["fn"], s["bb"]))
-    ctx.floor("O4", n, 4, "store, apply_load_coherence, match_load_to_stores (+fence_acq on the pinned tree)")
+    ctx.floor("O4", n, 3, "store, apply_load_coherence, match_load_to_stores")
     # fence_acq must select by a predicate on FirstSeen and synchronise with Acquire
     fn = need_fn(ctx, "O4", "rt::atomic::fence_acq")
     if fn is not None:
@@ -532,6 +532,26 @@ def O4(ctx):
         if not sel:
             ctx.bad("O4", "rt::atomic::fence_acq", "acquire fence no longer restricts itself to stores the thread has read",
                     fn.loc(), detail="unfiltered")
+        for k in set(sel):
+            if k == target:
+                continue
+            # the predicate must be thread-local: it may not consult the thread's causality clock
+            root = prog.ident(k)
+            reach = prog.reach([root]) if root is not None else {}
+            closed = [prog.insts[i].key for i in reach if prog.insts[i].key in ("rt::vv::VersionVec::versions", target)]
+            reads_clock = False
+            for i in reach:
+                body = prog.body_of(i)
+                for blk in body.blocks:
+                    for st in blk["stmts"]:
+                        if st["k"] == "=" and any(pl and mentions_field(body.expr_of_place(pl), T, "causality") for pl in
+                                                  ([st["rv"].get("place")] if st["rv"].get("place") else [])):
+                            reads_clock = True
+            if closed or reads_clock:
+                ctx.bad("O4", "rt::atomic::fence_acq", "the store filter %s of the acquire fence consults the thread's causality clock "
+                        "(not thread-local): it also selects stores read by other threads" % k, fn.loc(), detail="closed-predicate")
+            else:
+                ctx.ok("O4", "rt::atomic::fence_acq", "selects stores by the thread-local predicate %s" % k.split("::")[-1], [prog.fns[k].loc()])
 
 
 def run_all(ctx, which):
